@@ -160,6 +160,41 @@ func tolerated(name string, towardsClient bool) bool {
 	return name == "Alert(warning)" || (towardsClient && name == "HelloRequest")
 }
 
+// ClassifyFlights is Classify for a peer that sends two flights: a sequence whose concatenation is
+// conformant but whose split over the flights differs from the honest split (a message sent before
+// the peer could know what it needs, e.g. ChangeCipherSpec before the keys exist) cannot be
+// produced faithfully by the scripted peer, so it is not judged beyond crashes and hangs.
+func ClassifyFlights(sent [2][]string, honest [2][]string, wants [][]string, towardsClient bool) string {
+	stream := append(append([]string{}, sent[0]...), sent[1]...)
+	v := Classify(stream, wants, towardsClient)
+	if v != MustAbort {
+		strip := func(l []string) string {
+			var o []string
+			for _, s := range l {
+				if !tolerated(s, towardsClient) {
+					o = append(o, s)
+				}
+			}
+			return strings.Join(o, ",")
+		}
+		first := strip(sent[0])
+		okSplit := false
+		for _, w := range wants {
+			// the first flight must be exactly the first flight of a conformant stream: everything up
+			// to and including ServerHelloDone / ClientHello
+			for cut := 1; cut <= len(w); cut++ {
+				if (w[cut-1] == "ServerHelloDone" || w[cut-1] == "ClientHello") && strings.Join(w[:cut], ",") == first {
+					okSplit = true
+				}
+			}
+		}
+		if !okSplit {
+			return MayComplete
+		}
+	}
+	return v
+}
+
 // Classify decides what the endpoint under test owes for the stream of items `sent` (all flights
 // concatenated) given the conformant streams `wants` (e.g. with and without CertificateRequest).
 func Classify(sent []string, wants [][]string, towardsClient bool) string {
